@@ -29,7 +29,9 @@ RULE = ('six case streams from one PRNG: (ddl) random class declarations, 1..6 c
         'orders; (evo) addColumn/delColumn(changeSchema=True) sequences on a populated sqlite table with an index and a referencing child, '
         'interleaved with steps the class must refuse (addColumn under the name of a method, a live column, a declared index, id; '
         'delColumn of an unknown name; changeSchema True and False), class vs PRAGMA table_info judged after every step; '
-        '(idem) random createTable/dropTable sequences with and without the if-flags and out-of-band DROP TABLE; '
+        '(idem) random sequences over two related classes (mirrored / one-sided / differently named RelatedJoins, both name orders, indexes) of '
+        'createTable(ifNotExists, createJoinTables, createIndexes), dropTable(ifExists, dropJoinTables), createJoinTables(ifNotExists), '
+        'createIndexes() and an out-of-band DROP TABLE, sqlite_master compared with the declarations after every step; '
         '(decoy) a foreign table, created out of band, whose name the wanted table or link table name matches when _ is read as a wildcard '
         '(or that differs in letter case), then create-if-missing twice, insert/read back, drop-if-present twice; (style) mixedToUnder/underToMixed on an exhaustive '
         'small alphabet (lengths <= 4 quick, <= 5 thorough) plus random identifiers. '
@@ -613,12 +615,17 @@ def gen_evo_case(rng):
                                 'unique': rng.random() < 0.3 and ic['kind'][0] != 'fk'})
     ops = []
     live = [spec_final_name(c) for c in cols]
+    sure = list(live)        # initial columns not deleted so far: certainly columns of the class
     for _ in range(rng.randint(1, 5)):
         if rng.random() < 0.3:
-            ops.append(gen_refused_op(rng, decl, live))
+            # (whether the step really is refused is decided from the state the history reached:
+            #  by the model in Tie B, by the class/table comparison in the oracle -- not here)
+            ops.append(gen_refused_op(rng, decl, sure))
         elif live and rng.random() < 0.45:
             n = rng.choice(live)
             live.remove(n)
+            if n in sure:
+                sure.remove(n)
             ops.append(['del', n, True])
         else:
             c = gen_col(rng, [parent], used_py, used_db, style)
@@ -646,14 +653,25 @@ def gen_idem_case(rng):
     c = gen_join_case(rng)
     if rng.random() < 0.5:
         c['a']['indexes'].append({'name': 'ix', 'cols': [['x', None]], 'unique': rng.random() < 0.5})
+    if rng.random() < 0.35:
+        c['b']['indexes'].append({'name': 'iy', 'cols': [['y', None]], 'unique': rng.random() < 0.5})
     ops = []
-    for _ in range(rng.randint(2, 6)):
+    for _ in range(rng.randint(2, 7)):
         r = rng.random()
-        if r < 0.12:
+        who = rng.choice(['a', 'a', 'b', 'b', 'b'])
+        flag = rng.random() < 0.7
+        if r < 0.10:
             # somebody drops the class's table behind SQLObject's back (the link table stays)
-            ops.append(['rawdrop', rng.choice(['a', 'a', 'b']), False])
+            ops.append(['rawdrop', who, False, True, True])
+        elif r < 0.50:
+            # createTable(ifNotExists, createJoinTables, createIndexes): also the two-pass creation of related classes
+            ops.append(['create', who, flag, rng.random() < 0.6, rng.random() < 0.6])
+        elif r < 0.75:
+            ops.append(['drop', who, flag, rng.random() < 0.7, True])      # dropTable(ifExists, dropJoinTables)
+        elif r < 0.88:
+            ops.append(['joins', who, flag, True, True])                   # createJoinTables(ifNotExists)
         else:
-            ops.append([rng.choice(['create', 'create', 'drop']), rng.choice(['a', 'a', 'b']), rng.random() < 0.75])
+            ops.append(['indexes', who, False, True, True])                # createIndexes()
     return {'k': 'idem', 'a': c['a'], 'b': c['b'], 'ops': ops}
 
 
@@ -1210,13 +1228,19 @@ def run_idem(case):
         A = build_class(case['a'], conn, reg)
         B = build_class(case['b'], conn, reg)
         steps = []
-        for op, who, flag in case['ops']:
+        for full in case['ops']:
+            op, who, flag = full[:3]
+            f1, f2 = (full[3], full[4]) if len(full) > 3 else (True, True)
             cls = A if who == 'a' else B
             try:
                 if op == 'create':
-                    cls.createTable(ifNotExists=flag)
+                    cls.createTable(ifNotExists=flag, createJoinTables=f1, createIndexes=f2)
                 elif op == 'drop':
-                    cls.dropTable(ifExists=flag)
+                    cls.dropTable(ifExists=flag, dropJoinTables=f1)
+                elif op == 'joins':
+                    cls.createJoinTables(ifNotExists=flag)
+                elif op == 'indexes':
+                    cls.createIndexes()
                 else:
                     conn.query('DROP TABLE %s' % cls.sqlmeta.table)
                 err = False
@@ -1532,7 +1556,9 @@ def coq_case(c, o):
         ctxb = {'decl': c['b'], 'others': [c['a']]}
         return '(CIdem %s %s %s %s)' % (
             cdecl(c['a'], ctx), cdecl(c['b'], ctxb),
-            clist(c['ops'], lambda p: '(%d%%nat, %s, %s)' % ({'create': 0, 'drop': 1, 'rawdrop': 2}[p[0]], cbool(p[1] == 'a'), cbool(p[2]))),
+            clist(c['ops'], lambda p: '(%d%%nat, %s, %s, %s, %s)' % (
+                {'create': 0, 'drop': 1, 'rawdrop': 2, 'joins': 3, 'indexes': 4}[p[0]], cbool(p[1] == 'a'), cbool(p[2]),
+                cbool(p[3] if len(p) > 3 else True), cbool(p[4] if len(p) > 4 else True))),
             clist(o['steps'], lambda s: '(%s, %s, %s)' % (cbool(s['error']), clist(s['tables'], cstr), clist(s['indexes'], cstr))))
     if k == 'decoy':
         ctxb = {'decl': c['b'], 'others': [c['a']]}
@@ -1716,6 +1742,10 @@ def oracle_evo(c, o):
     ix_cols = {o['table'] + '_' + ix['name']: [n for n, _ in ix['cols']] for ix in decl['indexes']}
     for k, (op, st) in enumerate(zip(c['ops'], o['steps'])):
         cls_cols = [idn] + [p[1] for p in st['class_cols']]
+        if len(op) > 2 and not op[2] and st['error'] is None:
+            # a step WITHOUT schema change that the class accepted (whatever the generator intended):
+            # from here on class and table differ by design -- nothing more to judge in this history
+            return None
         if st['table_cols'] != cls_cols:
             return {'failures': [{'kind': 'out_of_step', 'step': k, 'op': op[0], 'error': st['error'],
                                   'class': cls_cols, 'table': st['table_cols']}]}
@@ -1737,24 +1767,99 @@ def oracle_evo(c, o):
     return None
 
 
+def spec_owned_links(decl, other):
+    """the link tables class `decl` owns: its creating RelatedJoins, unless the other class declares the same
+    intermediate table too and its name sorts first"""
+    ctx = {'decl': decl, 'others': [other]}
+    ctxo = {'decl': other, 'others': [decl]}
+    theirs = [spec_inter(other, j, ctxo) for j in other['joins'] if j['kind'] == 'related' and j['create']]
+    out = []
+    for j in decl['joins']:
+        if j['kind'] != 'related' or not j['create']:
+            continue
+        t = spec_inter(decl, j, ctx)
+        if decl['cls'] > other['cls'] and t in theirs:
+            continue
+        out.append(t)
+    return out
+
+
+def spec_idem_step(tables, indexes, decl, other, op):
+    """reference semantics of one create/drop step on (set of tables, {index: table}); returns error flag"""
+    kind, _, flag = op[:3]
+    f1, f2 = (op[3], op[4]) if len(op) > 3 else (True, True)
+    t = spec_table(decl)
+    links = spec_owned_links(decl, other)
+
+    def drop_table(n):
+        tables.discard(n)
+        for ix in [i for i, tb in indexes.items() if tb == n]:
+            del indexes[ix]
+
+    def make_links():
+        for ln in links:
+            if ln in tables:
+                if flag:
+                    continue
+                return True
+            tables.add(ln)
+        return False
+
+    def make_indexes():
+        if t not in tables:
+            return bool(decl['indexes'])
+        for ix in decl['indexes']:
+            n = t + '_' + ix['name']
+            if n in indexes or n in tables:
+                return True
+            indexes[n] = t
+        return False
+    if kind == 'create':
+        if t in tables:
+            return not flag
+        tables.add(t)
+        if f1 and make_links():
+            return True
+        if f2 and make_indexes():
+            return True
+        return False
+    if kind == 'drop':
+        if t not in tables:
+            return not flag
+        drop_table(t)
+        if f1:
+            for ln in links:
+                if ln not in tables:
+                    if flag:
+                        continue
+                    return True
+                drop_table(ln)
+        return False
+    if kind == 'rawdrop':
+        if t not in tables:
+            return True
+        drop_table(t)
+        return False
+    if kind == 'joins':
+        return make_links()
+    return make_indexes()
+
+
 def oracle_idem(c, o):
-    fails = []
-    prev = None
-    ta, tb = spec_table(c['a']), spec_table(c['b'])
+    """after every create / drop step -- whatever flags, one pass or two -- sqlite_master holds exactly the
+    tables, link tables and indexes the declarations and the steps so far call for"""
+    tables, indexes = set(), {}
     for k, (op, st) in enumerate(zip(c['ops'], o['steps'])):
-        t = ta if op[1] == 'a' else tb
-        state = (st['tables'], st['indexes'])
-        if op[2] and op[0] != 'rawdrop':
-            if st['error']:
-                fails.append({'kind': 'if_flag_error', 'step': k, 'op': op})
-            if op[0] == 'create' and t not in st['tables']:
-                fails.append({'kind': 'not_created', 'step': k})
-            if op[0] == 'drop' and t in st['tables']:
-                fails.append({'kind': 'not_dropped', 'step': k})
-            if k > 0 and c['ops'][k - 1] == op and prev != state and not o['steps'][k - 1]['error']:
-                fails.append({'kind': 'second_call_changed_state', 'step': k, 'before': prev, 'after': state})
-        prev = state
-    return {'failures': fails} if fails else None
+        decl, other = (c['a'], c['b']) if op[1] == 'a' else (c['b'], c['a'])
+        before = (sorted(tables), sorted(indexes))
+        err = spec_idem_step(tables, indexes, decl, other, op)
+        want = (sorted(tables), sorted(indexes))
+        got = (st['tables'], st['indexes'])
+        if got != want or bool(st['error']) != err:
+            return {'failures': [{'kind': 'schema_differs_from_declaration', 'step': k, 'op': op, 'before': before,
+                                  'expected': {'error': err, 'tables': want[0], 'indexes': want[1]},
+                                  'actual': {'error': bool(st['error']), 'tables': got[0], 'indexes': got[1]}}]}
+    return None
 
 
 def oracle_decoy(c, o):
